@@ -212,9 +212,9 @@ theorem flatL_filter_map {τ : Type} (skip : τ → Bool) (g : τ → Tree) (ts 
   | nil => rfl
   | cons t r ih =>
     by_cases h : skip t = true
-    · simp [List.filter_cons, h, collectN, ih]
+    · simp [h, collectN, ih]
     · have h' : skip t = false := by simpa using h
-      simp [List.filter_cons, h', collectN, flatL, ih]
+      simp [h', collectN, flatL, ih]
 
 theorem expected_packVals (v : List Sc) : expected v.length (packVals v) = v := by
   unfold packVals
